@@ -28,8 +28,10 @@ ASSUMPTIONS = [
     "one worker; ConcurrencyError retries inside the handler are not provoked",
     "the limit is the dataclass default of Message.max_attempts (read off the real class, 10): the engine reads neither the "
     "payload field nor the max_attempts column back, so no other per-message limit can occur",
-    "a lost acknowledgement is realised by calling the real RunTaskHandler.handle directly (its commits are the engine's) and "
-    "skipping the processor's own mark and the ack, i.e. the worker dies right after the handler's commit",
+    "a lost acknowledgement is realised in two ways, alternating: (a) the worker process is killed when the FIRST durable commit of "
+    "the delivery has completed (sqlite3.Connection subclass whose next commit() raises), then restarted on the same file - so a "
+    "handler that needs a second commit for the same outcome is cut between them; (b) the real RunTaskHandler.handle is called "
+    "directly and the processor's own mark and the ack are skipped (the worker dies after the handler's last commit)",
     "queue.max_attempts >= message.max_attempts for the terminal-status claim (otherwise the retry row strands for the DLQ "
     "sweep; modelled as `stuck`)",
 ]
@@ -249,7 +251,15 @@ def run_scenario(env: ProcEnv, scn: dict, rng, ctx=None, verbose: bool = False) 
         a_seen, m_seen = m.attempts, m.max_attempts
         c["ops"].append(op)
         try:
-            if op == "l":
+            if op == "l" and (rid + step) % 2 == 0:
+                # the worker process dies right after the handler's FIRST durable commit (whatever the handler, the
+                # processor's own mark and the ack would have done after it is lost), then restarts on the same file
+                outcome, ncommits = env.kill_after(m, 1)
+                if outcome != "killed" or ncommits != 1:
+                    c["obs"].append(f"kill-not-reached:{outcome}:{ncommits}")
+                    continue
+                c["stale"].append(rid)
+            elif op == "l":
                 # the handler runs and commits; the worker dies before the processor's mark and before the ack
                 env.processor._handlers[type(m)].handle(m)
                 c["stale"].append(rid)
